@@ -13,11 +13,25 @@
     * `reject_*` : the method followed by HT / CR / LF instead of SP, two spaces after the method, a status that is
       not three digits followed by SP: rejected with BadChar, never mis-split.
   The ≥ 14 available bytes are ParseFLine's own look-ahead rule (shorter input gives MoreBytes: C03).
-  Not proved (oracle only): the remaining rejection shapes (e.g. a third space-separated token after the version).
+  SOUNDNESS for ALL inputs (`Sipsp.Proofs.FLineSound`; every buffer ≤ 65,535 bytes, every offset, new and resumed
+  objects) — the "rejected rather than mis-split" clause:
+    * `sound`: if ParseFLine returns OK then the text at the offset IS a request line or a status line of the grammar
+      above and the object is exactly the one of `request_line` / `status_line`; `ok_iff`, `ok_iff_at`: OK ⇔ grammar;
+      `classify`: OK / MoreBytes / BadChar are the only verdicts on a new object, BadChar exactly when the text is
+      decided not to be a line; `short_input` (fewer than 14 bytes: MoreBytes, never OK);
+    * `never_missplit`: after OK the reported spans tile the line, each next span starts exactly one SP after the
+      previous one, no SP / HT / CR / LF inside a span (reason: no CR / LF), the line end follows directly, the fields of
+      the other shape are untouched; `request_unique`, `status_unique`, `request_not_status`: exactly one reading;
+    * `status_value` (100·d0 + 10·d1 + d2), `request_iff`, `reply_of_status`; `reject_after_version` (a fourth token);
+    * `sound_resumed`, `resumed_eq_oneshot`: the same after any number of MoreBytes / append / call-again rounds.
+  Observed (true of the Go code): a status line with code `000` is reported with Status 0, so `Request()` answers
+  true for it; request tokens are ANY bytes other than SP / HT / CR / LF and the request's version is not compared
+  with `SIP/2.0`.
   Model tied to parse_fline.go by the correspondence check.
 -/
 import Sipsp.Proofs.FLineSpec
 import Sipsp.Proofs.EqFold
+import Sipsp.Proofs.FLineSound
 
 namespace Sipsp.C08
 open Sipsp
@@ -100,5 +114,69 @@ theorem reject_bad_status (b : Buf) (o l : Nat) (hlen : ¬ b.size - o < 14)
 example : (parseFLine "INVITE sip:a@b SIP/2.0\r\nX".toUTF8.data 0 {}).2.1 = Err.ok := by decide +kernel
 example : (parseFLine "sip/2.0 486 Busy Here\nX".toUTF8.data 0 {}).2.2.status = 486 := by decide +kernel
 example : (parseFLine "INVITE  sip:a@b SIP/2.0\r\nX".toUTF8.data 0 {}).2.1 = Err.badChar := by decide +kernel
+
+/-! ### soundness for ALL inputs: accepted => a line of the grammar, never mis-split (proved in `Sipsp.Proofs.FLineSound`) -/
+
+/-- **soundness (C08, converse of `parseFLine_request` / `parseFLine_reply`)**: if ParseFLine says OK on a new object
+    then the consumed text `b[o, e)` is an instance of one of the two grammars and the reported object is exactly
+    the one made of its components -/
+theorem sound : type_of% @Sipsp.parseFLine_sound := @Sipsp.parseFLine_sound
+
+/-- **OK iff grammar**, verdict only -/
+theorem ok_iff : type_of% @Sipsp.fline_ok_iff := @Sipsp.fline_ok_iff
+
+/-- **OK iff grammar**: on a new object ParseFLine returns OK with next-line offset `e` iff the text at `o` is a request
+    line or a status line ending at `e` (both predicates contain the 14-byte look-ahead rule) -/
+theorem ok_iff_at : type_of% @Sipsp.fline_ok_iff_at := @Sipsp.fline_ok_iff_at
+
+/-- **never mis-split**: whenever the verdict is OK on a new object, the reported spans tile the line.
+    Request shape: method, uri, version are three non-empty spans without SP / HT / CR / LF, the method starts at
+    `o`, each next span starts exactly one byte (an SP) after the previous one, the line end follows the version
+    directly, and the reply fields stay untouched.
+    Reply shape: the version is the 7 bytes at `o` (no SP / HT / CR / LF) followed by one SP, the status code is
+    three digits followed by one SP, the reason is a possibly empty span without CR / LF directly followed by the
+    line end, and the request fields stay untouched. -/
+theorem never_missplit : type_of% @Sipsp.fline_never_missplit := @Sipsp.fline_never_missplit
+
+/-- fewer than 14 bytes available: MoreBytes, never OK, nothing touched -/
+theorem short_input : type_of% @Sipsp.fs_short := @Sipsp.fs_short
+
+/-- the reported status is the decimal value of the three digits: between 0 and 999, and 0 only for `000` -/
+theorem status_value : type_of% @Sipsp.fs_status_value := @Sipsp.fs_status_value
+
+/-- **request vs reply**: after an OK verdict on a new object `Request()` (status = 0) is true exactly for the request
+    lines — and for the status lines whose code is `000` (accepted by ParseFLine; see the examples below) -/
+theorem request_iff : type_of% @Sipsp.fline_request_iff := @Sipsp.fline_request_iff
+
+/-- a non-zero status means a status line, and the status is the value of its digits -/
+theorem reply_of_status : type_of% @Sipsp.fline_reply_of_status := @Sipsp.fline_reply_of_status
+
+/-- **classification**: on a new object, for every buffer and offset, exactly these three things can happen —
+    OK and the text at `o` is a line of the grammar; MoreBytes and the buffer was exhausted (or is shorter than the
+    14-byte look-ahead); BadChar and the text at `o` is not a line of the grammar -/
+theorem classify : type_of% @Sipsp.fline_classify := @Sipsp.fline_classify
+
+/-- on a new object ParseFLine answers OK, MoreBytes or BadChar, nothing else (in particular never NoCR: the line
+    end is only looked for at a CR / LF or at the end of the buffer) -/
+theorem verdicts : type_of% @Sipsp.fs_verdicts := @Sipsp.fs_verdicts
+
+/-- `method SP uri SP version` followed by SP or HT instead of the line end (e.g. a fourth space-separated token):
+    BadChar at that byte -/
+theorem reject_after_version : type_of% @Sipsp.fs_reject_after_version := @Sipsp.fs_reject_after_version
+
+theorem request_unique : type_of% @Sipsp.fs_req_unique := @Sipsp.fs_req_unique
+
+theorem status_unique : type_of% @Sipsp.fs_status_unique := @Sipsp.fs_status_unique
+
+/-- the two grammars exclude each other -/
+theorem request_not_status : type_of% @Sipsp.fs_req_not_status := @Sipsp.fs_req_not_status
+
+/-- **soundness for resumed objects**: an OK verdict — also when it comes after any number of MoreBytes rounds — means
+    that the text at the original offset `o` of the final buffer is a line of one of the two grammars, and the
+    object holds exactly its components -/
+theorem sound_resumed : type_of% @Sipsp.parseFLine_sound_resumed := @Sipsp.parseFLine_sound_resumed
+
+/-- resuming gives what a single call on the whole buffer gives (from the L2 theorem `parseFLine_resume`) -/
+theorem resumed_eq_oneshot : type_of% @Sipsp.fs_resumed_eq := @Sipsp.fs_resumed_eq
 
 end Sipsp.C08
